@@ -339,14 +339,26 @@ func (ex *Exec) assumeTypeFacts(st *State, t types.Type, v Term) {
 			app(SBool, "in_i64", slcCap(v)),
 			implies(eq(slcBase(v), intLit(0)), eq(slcCap(v), intLit(0)))))
 	case *types.Interface:
+		if v.Sort != SVal {
+			return // reflect.Type and similar interfaces are modelled by other sorts
+		}
 		// static interface type: the dynamic type implements it (or nil)
 		if u.NumMethods() > 0 {
 			st.assume(or(eq(v, nilVal), ex.implementsPred(t, app(SInt, "typeof", v))))
 		}
 		// a pointer held in an existing interface value was allocated earlier
 		st.assume(lt(app(SInt, "pl_ptr", v), st.alloc))
+		// lengths of actual values are non-negative (not an axiom: ill-formed headers exist in the sort)
+		st.assume(ge(app(SInt, "pl_len", v), intLit(0)))
+		ex.assumeValRanges(st, v)
 	case *types.Struct:
-		if v.Sort == "RV" || v.Sort == SStr || v.Sort == SBool || v.Sort == "Time" {
+		if v.Sort == "RV" {
+			rv := app(SVal, "rv_val", v)
+			st.assume(ge(app(SInt, "pl_len", rv), intLit(0)))
+			ex.assumeValRanges(st, rv)
+			return
+		}
+		if v.Sort == SStr || v.Sort == SBool || v.Sort == "Time" {
 			return
 		}
 		for i := 0; i < u.NumFields(); i++ {
@@ -468,4 +480,13 @@ func (ex *Exec) constArr(arrSort string, v Term) Term {
 	ex.d.declConst(name, arrSort)
 	ex.d.axiom("carr:"+name, fmt.Sprintf("(assert (forall ((i %s)) (! (= (select %s i) %s) :pattern ((select %s i)))))", ks, name, v.S, name))
 	return mk(arrSort, name)
+}
+
+// assumeValRanges: the integer payload of an actual dynamic value lies in the range of
+// its kind (facts about real values, deliberately not axioms over the whole Val sort).
+func (ex *Exec) assumeValRanges(st *State, v Term) {
+	k := app(SInt, "kindof", app(SInt, "typeof", v))
+	p := app(SInt, "pl_int", v)
+	st.assume(implies(and(ge(k, intLit(7)), le(k, intLit(12))), and(ge(p, intLit(0)), le(p, mk(SInt, "18446744073709551615")))))
+	st.assume(implies(and(ge(k, intLit(2)), le(k, intLit(6))), app(SBool, "in_i64", p)))
 }
